@@ -14,11 +14,11 @@ func init() {
 	Registry["w1"] = func(x *Ctx) {
 		r := x.R
 		pf := Profile{
-			Voters:  x.P.Int("voters", 1+r.Intn(5)),
-			Clients: x.P.Int("clients", 2+r.Intn(6)),
-			Steps:   x.P.Int("steps", 10+r.Intn(25)),
-			Crash:   x.P.Str("crash", "1") == "1",
-			Reads:   x.P.Bool("reads"),
+			Voters:     x.P.Int("voters", 1+r.Intn(5)),
+			Clients:    x.P.Int("clients", 2+r.Intn(6)),
+			Steps:      x.P.Int("steps", 10+r.Intn(25)),
+			Crash:      x.P.Str("crash", "1") == "1",
+			Reads:      x.P.Bool("reads"),
 			LeaseReads: x.P.Bool("leasereads"),
 			Snapshots:  x.P.Bool("snapshots"),
 			Torn:       x.P.Bool("torn"),
